@@ -6,6 +6,7 @@ import (
 	"bytes"
 	"crypto/sha256"
 	"fmt"
+	consensus "github.com/lianxiangcloud/linkchain/consensus"
 	"math"
 	"strconv"
 	"strings"
@@ -125,6 +126,22 @@ func (e *exec) Exec(op string) string {
 		a, _ := hx.Arg(toks, "addr")
 		_, ok := vs.Remove(hx.UnHex(a))
 		ans = fmt.Sprintf("ok=%v %s", ok, show(vs))
+	case "next":
+		// one block transition through the REAL consensus.updateStatus (hook VerifUpdateStatus): the application's validator
+		// list (empty = no list) against the current set
+		var cands []*types.Validator
+		if a, ok := hx.Arg(toks, "addrs"); ok && a != "-" && a != "" {
+			cands = parseVals(toks)
+		}
+		ns, err := consensus.VerifUpdateStatus(consensus.NewStatus{Validators: vs, LastValidators: vs.Copy()}, types.BlockID{}, &types.Header{Height: 7}, cands)
+		if err != nil {
+			return "err"
+		}
+		if ns.LastValidators == nil || !bytes.Equal(ns.LastValidators.Hash(), vs.Hash()) {
+			return "last-validators-not-the-previous-set"
+		}
+		vs = ns.Validators
+		ans = show(vs)
 	case "copy":
 		vs = vs.Copy()
 		ans = show(vs)
@@ -182,6 +199,41 @@ func (P) Monitor(c *hx.CaseRun) []hx.Failure {
 				fs = append(fs, hx.Failure{Monitor: "proposer_path_independent", Class: class, Site: "types/validator_set.go:IncrementAccum",
 					Msg: fmt.Sprintf("same set, same total rotation count, different split: %q vs %q", finals[0], finals[i])})
 				break
+			}
+		}
+	}
+	// same application output, same next set: the case runs one chain of block transitions twice, the second time with every
+	// validator list permuted; both replicas must hold the same set (content, accums, proposer)
+	// after every block, and the same identity class at the end
+	if c.Tags["blocks"] {
+		var runs [][]string
+		var classes []string
+		for i, op := range c.Ops {
+			switch {
+			case strings.HasPrefix(op, "new "):
+				runs = append(runs, nil)
+			case strings.HasPrefix(op, "next ") && len(runs) > 0:
+				runs[len(runs)-1] = append(runs[len(runs)-1], c.Impl[i])
+			case op == "hashclass":
+				classes = append(classes, c.Impl[i])
+			}
+		}
+		if len(runs) == 2 {
+			for j := 0; j < len(runs[0]) && j < len(runs[1]); j++ {
+				if runs[0][j] != runs[1][j] {
+					fs = append(fs, hx.Failure{Monitor: "next_set_order_free", Class: "next-validator-set-depends-on-list-order", Site: "consensus/execution.go:updateStatus",
+						Msg: fmt.Sprintf("block %d: the same validator list in another order gave %q vs %q", j+1, runs[0][j], runs[1][j])})
+					break
+				}
+			}
+		}
+		if len(classes) == 2 && classes[0] != classes[1] {
+			fs = append(fs, hx.Failure{Monitor: "next_set_order_free", Class: "next-validator-set-depends-on-list-order", Site: "consensus/execution.go:updateStatus",
+				Msg: "the two replicas end in sets of different identity: " + classes[0] + " vs " + classes[1]})
+		}
+		for i, ans := range c.Impl {
+			if ans == "last-validators-not-the-previous-set" || ans == "err" {
+				fs = append(fs, hx.Failure{Monitor: "next_set_order_free", Class: "update-status-" + ans, Site: "consensus/execution.go:updateStatus", Msg: c.Ops[i] + " -> " + ans})
 			}
 		}
 	}
@@ -377,6 +429,100 @@ func (P) Generate(g *hx.Gen) {
 
 	// (D) malformed stream: empty set, extreme accums
 	g.Case("empty set", []string{"case", "new addrs=- powers=-", "incr times=0", "incr times=1"}, false)
+
+	// (D) chains of block transitions through the real updateStatus: per block the application hands over no list, the
+	// same set again (identity is content: address, key, coinbase, power), or a changed set (power changed, validator
+	// added, removed, replaced); two nodes that receive the same lists in different ORDER must hold the same set afterwards
+	nD := g.Pick(60, 600)
+	for k := 0; k < nD; k++ {
+		n := 1 + g.Rng.Intn(6)
+		idx := g.Rng.Perm(30)[:n]
+		ps, kind := genPowers(g, n)
+		if kind == "withzero" || !noclipKind(kind) && g.Rng.Intn(2) == 0 {
+			ps, kind = genPowers(g, n)
+		}
+		type step struct {
+			idx []int
+			ps  []int64
+			acc []int64 // accums the application's list carries (part of its output: the same on every node)
+		}
+		var steps []step
+		curIdx, curPs := append([]int{}, idx...), append([]int64{}, ps...)
+		blocks := 2 + g.Rng.Intn(6)
+		changed := 0
+		for b := 0; b < blocks; b++ {
+			switch r := g.Rng.Intn(8); {
+			case r < 3: // no list
+				steps = append(steps, step{})
+			case r == 3: // the same content
+				steps = append(steps, step{idx: append([]int{}, curIdx...), ps: append([]int64{}, curPs...)})
+			default:
+				ni, np := append([]int{}, curIdx...), append([]int64{}, curPs...)
+				switch m := g.Rng.Intn(4); {
+				case m == 0 && len(ni) > 1: // remove one
+					j := g.Rng.Intn(len(ni))
+					ni, np = append(ni[:j:j], ni[j+1:]...), append(np[:j:j], np[j+1:]...)
+				case m == 1 && len(ni) < 8: // add one
+					for _, c := range g.Rng.Perm(30) {
+						fresh := true
+						for _, x := range ni {
+							if x == c {
+								fresh = false
+							}
+						}
+						if fresh {
+							ni, np = append(ni, c), append(np, int64(1+g.Rng.Intn(50)))
+							break
+						}
+					}
+				default: // change a power
+					j := g.Rng.Intn(len(ni))
+					np[j] = np[j]/2 + int64(1+g.Rng.Intn(9))
+				}
+				steps = append(steps, step{idx: ni, ps: np})
+				curIdx, curPs = ni, np
+				changed++
+			}
+		}
+		for i := range steps {
+			if steps[i].idx != nil && g.Rng.Intn(2) == 0 {
+				steps[i].acc = make([]int64, len(steps[i].idx))
+				for a := range steps[i].acc {
+					steps[i].acc[a] = int64(g.Rng.Intn(2000) - 1000)
+				}
+			}
+		}
+		ops := []string{hx.CaseOp("blocks", "wellformed")}
+		for rep := 0; rep < 2; rep++ { // the same chain twice, the second time with every list permuted
+			ops = append(ops, valsLine("new", idx, ps, nil))
+			for _, st := range steps {
+				if st.idx == nil {
+					ops = append(ops, "next addrs=- powers=-")
+					continue
+				}
+				ii, pp, acc := st.idx, st.ps, st.acc
+				if rep == 1 {
+					perm := g.Rng.Perm(len(ii))
+					ii2, pp2 := make([]int, len(ii)), make([]int64, len(ii))
+					var acc2 []int64
+					if acc != nil {
+						acc2 = make([]int64, len(ii))
+					}
+					for a, b := range perm {
+						ii2[a], pp2[a] = ii[b], pp[b]
+						if acc != nil {
+							acc2[a] = acc[b]
+						}
+					}
+					ii, pp, acc = ii2, pp2, acc2
+				}
+				ops = append(ops, valsLine("next", ii, pp, acc))
+			}
+			ops = append(ops, "hashclass")
+		}
+		g.Count(fmt.Sprintf("blocks-changed:%d", changed))
+		g.Case(fmt.Sprintf("blocks n=%d kind=%s blocks=%d changed=%d", n, kind, blocks, changed), ops, changed > 0)
+	}
 	for k := 0; k < g.Pick(10, 200); k++ {
 		n := 1 + g.Rng.Intn(4)
 		idx := g.Rng.Perm(30)[:n]
